@@ -58,6 +58,93 @@ fn w_a85_ws() -> bool {
     got.map(|g| g != b"hello world!").unwrap_or(true)
 }
 
+/// minimal classic-xref PDF from (object number, body) pairs
+pub fn mkpdf(objs: &[(u64, &str)], trailer_extra: &str) -> Vec<u8> {
+    let mut out = b"%PDF-1.5\n".to_vec();
+    let max = objs.iter().map(|o| o.0).max().unwrap_or(0);
+    let mut offs = vec![None; max as usize + 1];
+    for (n, body) in objs {
+        offs[*n as usize] = Some(out.len());
+        out.extend_from_slice(format!("{} 0 obj\n{}\nendobj\n", n, body).as_bytes());
+    }
+    let xref = out.len();
+    out.extend_from_slice(format!("xref\n0 {}\n", max + 1).as_bytes());
+    for (i, o) in offs.iter().enumerate() {
+        match o {
+            Some(p) => out.extend_from_slice(format!("{:010} {:05} n \n", p, 0).as_bytes()),
+            None => out.extend_from_slice(format!("{:010} {:05} f \n", 0, if i == 0 { 65535 } else { 0 }).as_bytes()),
+        }
+    }
+    out.extend_from_slice(format!("trailer\n<< /Size {} /Root 1 0 R {} >>\nstartxref\n{}\n%%EOF", max + 1, trailer_extra, xref).as_bytes());
+    out
+}
+const CATALOG: &str = "<< /Type /Catalog /Pages 2 0 R >>";
+const PAGES: &str = "<< /Type /Pages /Kids [3 0 R] /Count 1 >>";
+const PAGE: &str = "<< /Type /Page /Parent 2 0 R /MediaBox [0 0 100 100] >>";
+
+fn w_cache_image() -> bool {
+    use pdf::file::FileOptions;
+    use pdf::object::*;
+    let run = |cached: bool| -> (usize, usize) {
+        let path = "/repo/files/jpeg.pdf";
+        macro_rules! go { ($file:expr) => {{
+            let file = $file;
+            let r = file.resolver();
+            let mut res = (0, 0);
+            for n in 1..40u64 {
+                if let Ok(img) = r.get::<XObject>(Ref::from_id(n)) {
+                    if let XObject::Image(ref im) = *img {
+                        let a = im.raw_image_data(&r).map(|d| d.0.len()).unwrap_or(0);
+                        let b = im.inner.data(&r).map(|d| d.len()).unwrap_or(0);
+                        res = (a, b);
+                        break;
+                    }
+                }
+            }
+            res
+        }}}
+        if cached { go!(FileOptions::cached().open(path).unwrap()) } else { go!(FileOptions::uncached().open(path).unwrap()) }
+    };
+    let c = run(true);
+    let u = run(false);
+    println!("raw_image_data then Stream::data: cached {:?}, uncached {:?}", c, u);
+    c != u
+}
+
+fn w_cache_err_type() -> bool {
+    use pdf::file::FileOptions;
+    use pdf::object::*;
+    use pdf::primitive::Primitive;
+    let data = mkpdf(&[(1, CATALOG), (2, PAGES), (3, PAGE), (4, "132")], "");
+    let run = |cached: bool| -> String {
+        macro_rules! go { ($file:expr) => {{
+            let file = $file;
+            let r = file.resolver();
+            let a = r.get::<pdf::font::Font>(Ref::from_id(4)).is_ok();
+            let b = r.get::<Primitive>(Ref::from_id(4));
+            format!("as Font ok={}, then as Primitive -> {:?}", a, b.map(|p| format!("{:?}", *p)).map_err(|e| format!("{}", e).chars().take(60).collect::<String>()))
+        }}}
+        if cached { go!(FileOptions::cached().load(data.clone()).unwrap()) } else { go!(FileOptions::uncached().load(data.clone()).unwrap()) }
+    };
+    let c = run(true);
+    let u = run(false);
+    println!("cached:   {}\nuncached: {}", c, u);
+    c != u
+}
+
+fn w_update_stale() -> bool {
+    use pdf::file::FileOptions;
+    use pdf::object::*;
+    let data = mkpdf(&[(1, CATALOG), (2, PAGES), (3, PAGE), (4, "132")], "");
+    let mut file = FileOptions::cached().load(data).unwrap();
+    let before = *file.resolver().get::<i32>(Ref::from_id(4)).unwrap();
+    file.update(PlainRef { id: 4, gen: 0 }, 777i32).unwrap();
+    let typed = *file.resolver().get::<i32>(Ref::from_id(4)).unwrap();
+    let raw = file.resolver().resolve(PlainRef { id: 4, gen: 0 }).unwrap();
+    println!("before={} after update: get::<i32> = {}, resolve = {:?}", before, typed, raw);
+    typed != 777
+}
+
 fn main() {
     let all: Vec<(&str, fn() -> bool)> = vec![
         ("lzw_predictor", w_lzw_predictor),
@@ -65,6 +152,9 @@ fn main() {
         ("tiff_predictor", w_tiff_predictor),
         ("hex_odd", w_hex_odd),
         ("a85_ws", w_a85_ws),
+        ("cache_image", w_cache_image),
+        ("cache_err_type", w_cache_err_type),
+        ("update_stale", w_update_stale),
     ];
     let want: Vec<String> = std::env::args().skip(1).collect();
     for (n, f) in all {
